@@ -1,4 +1,5 @@
 import SR.Proofs.SemTester
+import SR.Proofs.SemBrute
 import SR.Proofs.SemObjects
 /-!
 # C08 — the linearizability tester decides linearizability exactly
@@ -112,6 +113,14 @@ theorem C08_len (es : List (Event Op Ret)) (hwf : WellFormed es) :
   refine ⟨len_eq s0 es hwf, h1, ?_⟩
   show (record true s0 es).inflight.length = _
   omega
+
+/-- the run-time oracle's building blocks decide the declarative definitions: `checkSer` (applied to every
+    serialization the implementation returns) is `IsSerializationOf`, `wfB` is `WellFormed` -/
+theorem C08_oracle_decides [DecidableEq Op] [DecidableEq Ret] (es : List (Event Op Ret)) (ids : List OpId)
+    (l : List (Op × Ret)) :
+    (checkSer true spec s0 es ids l = true ↔ IsSerializationOf true spec s0 es ids l) ∧
+    (wfB es = true ↔ WellFormed es) :=
+  ⟨checkSer_iff true spec s0 es ids l, wfB_iff es⟩
 
 /-! ## non-vacuity: the crate's own unit-test histories -/
 section examples
